@@ -58,6 +58,8 @@ func main() {
 	switch os.Args[1] {
 	case "check":
 		os.Exit(cmdCheck(os.Args[2:]))
+	case "deps":
+		os.Exit(cmdDeps(os.Args[2:]))
 	case "inventory":
 		os.Exit(cmdInventory())
 	case "normal":
